@@ -29,7 +29,7 @@ class Crashes(Part):
         rng = ctx.rng
         cases = []
         self.dry_error = {}
-        scenarios = ["serial", "parallel", "nsga2", "bulk"] + ([] if ctx.quick else ["epsmoea"])
+        scenarios = ["serial", "contended", "parallel", "nsga2", "bulk"] + ([] if ctx.quick else ["epsmoea"])
         for sc in scenarios:
             seed = rng.randrange(1 << 30)
             total = self.count_points(ctx, sc, seed)
@@ -41,7 +41,7 @@ class Crashes(Part):
                 # a transaction larger than SQLite's page cache: crash inside the final sync_all (its upserts are the last points)
                 last = list(range(max(1, total - 1100), total + 1))
                 ks = sorted(rng.sample(last, 5 if ctx.quick else 60) + [total - 1, total])
-            cap = 45 if ctx.quick else 100000
+            cap = 36 if ctx.quick else 100000
             if len(ks) > cap:
                 ks = sorted(rng.sample(ks, cap - 2) + [1, total + 1])
             for k in ks:
